@@ -63,7 +63,15 @@ RulesOf(U, full) ==
         R3 == Rels(U, S3, FALSE)
         r1 == { r \in R2 : r.stop.op = "end" /\ r.field = "" /\ r.sub \in p1 \cup k1 }
         C3 == Comps(r1 \cup p1)
-    IN A \cup R2 \cup C2 \cup R3 \cup C3
+        \* conjunctions of composites: written as ONE rule object with the keys all + any (+ not) side by side by the
+        \* recorder's second spelling (harness/src/rules.rs rule_yaml_obj); a rule object means the conjunction of its keys
+        ra == RegexAtoms(U)
+        C4 == IF ~full THEN {} ELSE
+              { [op |-> "all", subs |-> << [op |-> "all", subs |-> <<k, x>>], [op |-> "any", subs |-> <<a, b>>] >>] :
+                    k \in k1, x \in ra \cup p1, a \in KindAtoms(U, 2) \cup ra, b \in ra }
+              \cup { [op |-> "all", subs |-> << k, [op |-> "any", subs |-> <<a, b>>], [op |-> "not", sub |-> x] >>] :
+                    k \in KindAtoms(U, 2), a \in ra, b \in p1, x \in ra }
+    IN A \cup R2 \cup C2 \cup R3 \cup C3 \cup C4
 
 \* documents with local utilities: [rule, utils]
 UtilDocs(U) ==
